@@ -116,7 +116,7 @@ func (c *Ctx) assumeRanges(v Val, t types.Type, cond string, alloc string) {
 func (c *Ctx) assumeStructural(v Val, t types.Type, cond string) {
 	switch u := t.Underlying().(type) {
 	case *types.Slice:
-		c.assume(cond, and(le("0", v[1]), le("0", v[2]), le(v[2], v[3]), implies(eq(v[0], "0"), eq(v[3], "0")), le(v[3], "4611686018427387904")))
+		c.assume(cond, and(le("0", v[1]), le("0", v[2]), le(v[2], v[3]), implies(eq(v[0], "0"), eq(v[3], "0")), le(v[3], "281474976710656")))
 	case *types.Interface:
 		c.assume(cond, and(le("0", v[0]), implies(eq(v[0], "0"), eq(v[1], "0"))))
 		c.assumeSealed(v, t, cond)
@@ -633,8 +633,8 @@ func (f *frame) enterLoop(li *loopInfo, reach string, st State) State {
 		if phi.Comment == "rangeindex" && len(f.vals[phi]) == 1 {
 			c.assume(reach, ge(f.vals[phi][0], num(-1)))
 			// ... and it stays below the length taken before the loop (the loop increments it only
-			// after comparing index+1 with that length); lengths are at most 2^62
-			c.assume(reach, le(f.vals[phi][0], "4611686018427387904"))
+			// after comparing index+1 with that length); lengths are at most 2^48 (maxAlloc)
+			c.assume(reach, le(f.vals[phi][0], "281474976710656"))
 		}
 	}
 	// 3. assume invariants
